@@ -127,6 +127,20 @@ class SliceFlow:
                     if c is not None:
                         anyg = True
                         out |= c
+                elif d.kind == "test" and isinstance(st, (ast.For,)) and isinstance(st.target, ast.Name) and st.target.id == e.id:
+                    # for x in L / reversed(L): x is whatever was appended to the local list L
+                    it = st.iter
+                    if isinstance(it, ast.Call) and isinstance(it.func, ast.Name) and it.func.id in ("reversed", "iter", "list", "tuple") and len(it.args) == 1:
+                        it = it.args[0]
+                    if isinstance(it, ast.Name):
+                        fn_ = self.pm.fn(fname)
+                        for c_ in walk_local(fn_):
+                            if isinstance(c_, ast.Call) and isinstance(c_.func, ast.Attribute) and c_.func.attr == "append" and isinstance(c_.func.value, ast.Name) and c_.func.value.id == it.id and len(c_.args) == 1:
+                                an = node_containing(self.pm.cfg(fname), c_)
+                                cc = self.counts(fname, an, c_.args[0], depth + 1, seen | {(did, e.id)}) if an is not None else None
+                                if cc is not None:
+                                    anyg = True
+                                    out |= cc
                 elif d.kind == "stmt" and isinstance(st, ast.Assign) and len(st.targets) == 1 and isinstance(st.targets[0], (ast.Tuple, ast.List)):
                     # first, *middle, last = group: the starred name holds the group without its two outer tokens
                     elts = st.targets[0].elts
@@ -214,7 +228,8 @@ def run(ctx: Ctx) -> None:
     for fname, call in pm.call_sites("_consume_value_until"):
         cfg = pm.cfg(fname)
         n = node_containing(cfg, call)
-        variants = _term_variants(pm, fname, call.args[1:])
+        npos = len(pm.fn("_consume_value_until").args.args) - 1  # named positional parameters before *token_types
+        variants = _term_variants(pm, fname, call.args[npos:])
         if variants is None:
             raise AnalysisError(f"cannot fold terminator set at {mod.loc(call)}")
         if fname == "_parse_concept":
